@@ -40,6 +40,11 @@ CLAIMED["C18"] = dict(engine="annsim", level="exploration", ref="6 (C18), 5 (E5)
    text="GetEffectiveAnnotation through a real cache, sgx-epc parseEpcLimit and the memory-qos / memtierd CreateContainer handlers are run on generated annotation maps (all three forms, container names that are prefixes/suffixes of each other or contain separators). Results must equal an independent resolver (container-specific > pod-wide > bare), be identical under 8 map-iteration orders per map, be unchanged when annotations addressed to other containers are removed, and an explicitly annotated cgroup parameter must win over the class-derived value.",
    note="The plugins are package main: their sources are compiled into harness packages by verifgen (package clause and main() renamed, nothing else), so what runs is the repository's current code. 8 orders per map are sampled.")
 
+CLAIMED["C17"] = dict(engine="agentsim", level="exploration", ref="6 (C17), 5 (E4)",
+   technique="deterministic simulation in a testing/synctest bubble: real agent loop, ObjectWatch and clientsets over a simulated API server at the http.RoundTripper seam; seeded release order of queued watch events across the node, node-config and group-config streams, fake clock, injected watch expiry/ERROR/refused creation/refused status patch/callback rejection/agent restart; reference-model oracle on the objects handed to the plugin callback",
+   text="The real Agent.Start loop is fed add/modify/re-create/delete events on the node-specific, default and group custom resources and label changes of the node, interleaved in a seeded order (including duplicates, same-generation re-deliveries produced by the agent's own status patches, synthetic ADDED after watch re-opening, deletions while the other kind is absent, and specs failing validation). After every released event the sequence of objects handed to the notify callback must be what the reference model of the documented precedence prescribes: node-specific over group/default, no delivery on a group update while a node-specific resource exists, fall-back on deletion, no delivery for a version already seen, never an object failing validation; after faults stop the agent watches exactly its node resource and the group its label names.",
+   note="Built with go1.26.8 (testing/synctest) as a test binary. The API server is a stub at the HTTP level; the order in which the agent's select sees its three streams is the seeded release order (only one stream ever has an event in flight), not goroutine scheduling. Weaker readings taken: see evidence assumptions.")
+
 NOT_BUILT = {
 }
 
